@@ -145,7 +145,14 @@ def immutable_any_name(meth):
     """once initialised (_immutable True), __setattr__/__delattr__ refuse *every* attribute name (opaque symbolic name)
     and leave the stored frame untouched"""
     from pvc.values import SStr, Opaque
-    sig = {"name": ("const", SStr((Opaque("any-attribute-name"),)))}
+
+    def anyname(ex, name):
+        return SStr((Opaque("any-attribute-name"),))
+
+    # names tried by the native replayer: existing private / public attribute, new private / public name
+    anyname.native_candidates = ["_payload", "_ubxClass", "_immutable", "_x", "x", "payload", "identity"]
+    anyname.native = lambda v: v if isinstance(v, str) else "_payload"
+    sig = {"name": anyname}
     if meth == "__setattr__":
         sig["value"] = "int"
     return Contract(
@@ -213,20 +220,43 @@ def c15_set_attribute_single(arg):
     def kw(ex, name):
         return KwMap({"x": any_value(kind, T)(ex, "val")})
 
+    def kwnative(inputs):
+        v = inputs.get("val")
+        samples = {"int": v if isinstance(v, int) else 0, "float": 0.0, "str": "", "bytes": v if isinstance(v, bytes) else b"",
+                   "none": None}
+        return {"x": samples.get(kind, any_value(kind, T).native(v))}
+
+    kw.native = kwnative
+
     def lst(ex, name):
         return ex.st.alloc("list", None, items=[])
+
+    lst.native = lambda v: []
 
     def setup_registry(reg):
         fam = {T: c15_val2bytes((T, kind if not scaled else "int"))}
         reg.family("pyubx2.ubxhelpers.val2bytes", "att", fam)
 
+    # what the appended bytes must decode to (same clauses as val2bytes' own contract, stated on the payload tail, so
+    # that a value swapped or defaulted *before* val2bytes is called is noticed here)
+    from contracts.helpers import INT_LETTERS
+    L = T[0]
+    tail = "self._payload[len(old(self._payload)):len(self._payload)]"
+    decodes = []
+    if kind == "none" or (scaled and kind not in ("int", "float")):
+        decodes.append(("value-of-the-wrong-type-refused", "False"))
+    elif not scaled:
+        if L in INT_LETTERS:
+            decodes.append(("field-decodes-to-the-value", f"{'s_le' if L == 'I' else 'u_le'}({tail}) == kwargs['x']"))
+        elif L in ("X", "C") and kind == "bytes":
+            decodes.append(("field-holds-the-value", f"{tail} == kwargs['x']"))
     c = Contract(
         M + "_set_attribute_single",
         params={"self": msg_object(payload="bytes", immutable=False), "anam": ("const", "x"),
                 "adef": ("const", [T, 0.01] if scaled else T), "offset": "nat", "index": lst, "**": kw},
         ensures=[("appends-exactly-the-field", f"len(self._payload) == len(old(self._payload)) + {n}"),
                  ("earlier-bytes-untouched", "self._payload[0:len(old(self._payload))] == old(self._payload)"),
-                 ("offset-advances", f"result == offset + {n}")],
+                 ("offset-advances", f"result == offset + {n}")] + decodes,
         raises={k: None for k in ("TypeError", "OverflowError", "ValueError", "AttributeError", "IndexError", "error",
                                   "UBXTypeError", "ZeroDivisionError")},
         modifies=["self._payload", "self.x"])
